@@ -5,14 +5,18 @@
 (* IOEnv.OUT_UNIV   one record: the feature universe (sequence; features   *)
 (*                  are referred to by their index in it) and the menus    *)
 (* IOEnv.OUT_REQS   every request over a problem kind:                     *)
-(*                  [mode, f (set of universe indices), ck, pk, og, ag,    *)
+(*                  [mode, f (set of universe indices), xf (names of       *)
+(*                   further features of the kind), ck, pk, og, ag,        *)
 (*                   cks (pipeline: sequence of compilation kinds), call,  *)
 (*                   grp]                                                  *)
 (*                  call = "mode"  the mode's own entry point and          *)
 (*                                 get_all_applicable_engines              *)
 (*                         "all"   get_all_applicable_engines only (modes  *)
 (*                                 whose entry point takes a problem)      *)
-(*                         "pipe"  Compiler(compilation_kinds = cks)       *)
+(*                         "pipe"  Compiler(compilation_kinds = cks): every *)
+(*                                 sequence of <= PipeLen kinds of CKPipe  *)
+(*                                 and NLong sampled sequences of 3..      *)
+(*                                 LongLen kinds of CKLong per kind         *)
 (*                  grp = slice number of the kind (mock batches take one  *)
 (*                  slice each, the built-in batch takes all)              *)
 (* IOEnv.OUT_PROBS  requests through entry points that take a problem:     *)
@@ -37,7 +41,9 @@ CONSTANTS NF,       \* number of universe features in use (prefix of Universe)
           Seed,     \* shifts the strided walk through the profile space
           PipeLen,  \* maximal pipeline length
           NPipe,    \* number of compilation kinds pipelines are made of (prefix of CKPipe)
-          AllCK     \* TRUE: every compilation kind of the library; FALSE: CKSmall
+          AllCK,    \* TRUE: every compilation kind of the library; FALSE: CKSmall
+          LongLen,  \* sampled long pipelines have 3..LongLen stages
+          NLong     \* number of sampled long pipelines per kind of the universe
 
 Universe == <<"ACTION_BASED", "CONTINUOUS_TIME", "TRAJECTORY_CONSTRAINTS", "STATE_INVARIANTS",
               "EXISTENTIAL_CONDITIONS", "PLAN_LENGTH", "CONDITIONAL_EFFECTS", "ACTION_BASED_MULTI_AGENT",
@@ -65,8 +71,10 @@ CKs == IF AllCK THEN CKAll ELSE CKSmall
 CKPipe == <<"QUANTIFIERS_REMOVING", "GROUNDING", "STATE_INVARIANTS_REMOVING", "TRAJECTORY_CONSTRAINTS_REMOVING",
             "DURATIVE_ACTIONS_TO_PROCESSES", "CONDITIONAL_EFFECTS_REMOVING", "DISJUNCTIVE_CONDITIONS_REMOVING">>
 
-R(mode, m, ck, pk, og, ag, cks, call) ==
-   [mode |-> mode, f |-> KindOf(m), ck |-> ck, pk |-> pk, og |-> og, ag |-> ag, cks |-> cks, call |-> call, grp |-> Grp(m)]
+\* xf = names of features outside the universe that the kind has too (long pipelines only)
+RX(mode, m, xf, ck, pk, og, ag, cks, call) ==
+   [mode |-> mode, f |-> KindOf(m), xf |-> xf, ck |-> ck, pk |-> pk, og |-> og, ag |-> ag, cks |-> cks, call |-> call, grp |-> Grp(m)]
+R(mode, m, ck, pk, og, ag, cks, call) == RX(mode, m, {}, ck, pk, og, ag, cks, call)
 Rng(s) == {s[i] : i \in DOMAIN s}
 
 SingleReqs(m) ==
@@ -85,7 +93,34 @@ SeqsOfLen(n) == IF n = 0 THEN {<<>>} ELSE {Append(s, c) : s \in SeqsOfLen(n - 1)
 PipeSeqs == UNION {{s \in SeqsOfLen(n) : n < 3 \/ \A i \in 1..(n - 1) : s[i] # s[i + 1]} : n \in 1..PipeLen}
 PipeReqs(m) == {R("compiler", m, "", "", "", "", s, "pipe") : s \in PipeSeqs}
 
-Reqs == UNION {SingleReqs(m) \cup PipeReqs(m) : m \in Masks}
+
+(* Long pipelines (3..LongLen stages).  The property's pipeline clause speaks about the kind        *)
+(* PRODUCED BY ALL THE COMPILERS BEFORE a stage: from the third stage on that kind differs from     *)
+(* "the previous compiler applied to the requested kind", so an early stage's change of the kind    *)
+(* (a feature removed or introduced) must still be in force two or more stages later.  The space    *)
+(* (lengths x sequences over CKLong x extra features) is walked with a stride, NLong points per     *)
+(* kind of the universe, shifted by Seed.  CKLong = the compilation kinds offered by built-in       *)
+(* compilers whose resulting_problem_kind changes the kind, and those of the mocks' CompMenu; XFeat *)
+(* = features outside the universe that built-in compilers remove or introduce.                     *)
+CKLong == <<"QUANTIFIERS_REMOVING", "GROUNDING", "STATE_INVARIANTS_REMOVING", "TRAJECTORY_CONSTRAINTS_REMOVING",
+            "DURATIVE_ACTIONS_TO_PROCESSES", "CONDITIONAL_EFFECTS_REMOVING", "DISJUNCTIVE_CONDITIONS_REMOVING",
+            "NEGATIVE_CONDITIONS_REMOVING", "USERTYPE_FLUENTS_REMOVING", "TIMED_TO_SEQUENTIAL",
+            "BOUNDED_TYPES_REMOVING", "UNDEFINED_INITIAL_NUMERIC_REMOVING">>
+XFeat == <<"OBJECT_FLUENTS", "NEGATIVE_CONDITIONS", "CONDITIONAL_EFFECTS", "DISJUNCTIVE_CONDITIONS", "UNIVERSAL_CONDITIONS">>
+NLens == LongLen - 2
+LongSpace == NLens * (2 ^ Len(XFeat)) * (Len(CKLong) ^ LongLen)
+\* strides: primes, coprime to LongSpace = NLens * 2^a * 3^b (NLens <= 4)
+LongCode(m, j) == (((Seed * 7919) % LongSpace) + ((m * 1299709) % LongSpace) + ((j * 15485863) % LongSpace)) % LongSpace
+LongOf(m, code) ==
+   LET n == 3 + (code % NLens)
+       c1 == code \div NLens
+       xm == c1 % (2 ^ Len(XFeat))
+       c2 == c1 \div (2 ^ Len(XFeat))
+   IN RX("compiler", m, {XFeat[i] : i \in {k \in DOMAIN XFeat : Bit(xm, k)}}, "", "", "", "",
+         [i \in 1..n |-> CKLong[1 + ((c2 \div (Len(CKLong) ^ (i - 1))) % Len(CKLong))]], "pipe")
+LongReqs(m) == {LongOf(m, LongCode(m, j)) : j \in 1..NLong}
+
+Reqs == UNION {SingleReqs(m) \cup PipeReqs(m) \cup LongReqs(m) : m \in Masks}
 
 \* ingredients of real problems (what Python adds to a base problem) -- each brings one universe feature
 Ingredients == <<"conditional_effect", "durative_action", "trajectory_constraint", "state_invariant",
@@ -149,9 +184,11 @@ Cfg(c) ==
     schemes |-> <<Schemes[1 + (c % Len(Schemes))], Schemes[1 + ((c + 1 + (c \div Len(Schemes))) % Len(Schemes))]>>]
 Cfgs == {Cfg(c) : c \in 1..NC}
 
-ASSUME 6 <= NF /\ NF <= Len(Universe) /\ NPipe <= Len(CKPipe)
+ASSUME 6 <= NF /\ NF <= Len(Universe) /\ NPipe <= Len(CKPipe) /\ 3 <= LongLen /\ LongLen <= 6 /\ NLong <= 100
 ASSUME ndJsonSerialize(IOEnv.OUT_UNIV, <<[universe |-> SubSeq(Universe, 1, NF), ingredients |-> Ingredients, schemes |-> Schemes,
-                                          space |-> Space, kinds |-> Cardinality(Masks), pipes |-> Cardinality(PipeSeqs)]>>)
+                                          space |-> Space, kinds |-> Cardinality(Masks), pipes |-> Cardinality(PipeSeqs),
+                                          longpipes |-> Cardinality(UNION {LongReqs(m) : m \in Masks}), longspace |-> LongSpace,
+                                          cklong |-> CKLong, xfeat |-> XFeat]>>)
 ASSUME ndJsonSerialize(IOEnv.OUT_REQS, SetToSeq(Reqs))
 ASSUME ndJsonSerialize(IOEnv.OUT_PROBS, SetToSeq(ProbReqs))
 ASSUME ndJsonSerialize(IOEnv.OUT_CFGS, SetToSeq(Cfgs))
